@@ -21,7 +21,7 @@ import vf
 
 M64 = 1 << 64
 WITNESS = (0x55d0b1358140, 0x55d0b16ffff0, 0x55d0b1496850, 0x55d0b1621040)
-BAD_TOKENS = ("CRASH", "THROW", "TIMEOUT", "BADCASE", "NOTEXPIRED", "NOANALYSERMODEL", "FOREIGN", "<missing>", "MODELERROR")
+BAD_TOKENS = ("CRASH", "THROW", "TIMEOUT", "BADCASE", "NOTEXPIRED", "NOANALYSERMODEL", "FOREIGN", "<missing>", "MODELERROR", "REPARSE_FAILED")
 
 
 # ----------------------------------------------------------------------------- key probe
@@ -415,21 +415,31 @@ def judge_graph(g, c, m):
 
 # ----------------------------------------------------------------------------- histories (edits interleaved with questions)
 
+IDOPS = "mcMC"
+
+
 def ev_text(e):
     k = e[0]
     if k == "e":
         return "%d-%d" % (e[1], e[2])
+    if k == "4":
+        return "%d=%d" % (e[1], e[2])
     if k == "d":
         return "%d/%d" % (e[1], e[2])
-    if k == "r":
-        return "r%d" % e[1]
-    if k == "x":
-        return "x%d" % e[1]
+    if k in "rx":
+        return "%s%d" % (k, e[1])
+    if k in IDOPS:
+        return "%s%d:%d" % (k, e[1], e[2])
+    if k in "PA":
+        return k
+    if k == "!":
+        return "!%d:%d:%d" % (e[1], e[2], e[3])
     return "?%d:%d" % (e[1], e[2])
 
 
 def hist_line(h):
-    return "H %d %s %s" % (h["n"], h["layout"], ",".join(ev_text(e) for e in h["events"]) or "-")
+    return "H %d %s %s%s" % (h["n"], h["layout"], ",".join(ev_text(e) for e in h["events"]) or "-",
+                             " keep" if h.get("keep") else "")
 
 
 def parse_hist(line):
@@ -440,15 +450,26 @@ def parse_hist(line):
             if t[0] == "?":
                 a, b = t[1:].split(":")
                 evs.append(("?", int(a), int(b)))
+            elif t[0] == "!":
+                k, a, b = t[1:].split(":")
+                evs.append(("!", int(k), int(a), int(b)))
+            elif t[0] in "PA":
+                evs.append((t[0], 0, 0))
+            elif t[0] in IDOPS:
+                a, b = t[1:].split(":")
+                evs.append((t[0], int(a), int(b)))
             elif t[0] in "xr":
                 evs.append((t[0], int(t[1:]), int(t[1:])))
             elif "/" in t:
                 a, b = t.split("/")
                 evs.append(("d", int(a), int(b)))
+            elif "=" in t:
+                a, b = t.split("=")
+                evs.append(("4", int(a), int(b)))
             else:
                 a, b = t.split("-")
                 evs.append(("e", int(a), int(b)))
-    return {"n": int(f[1]), "layout": f[2], "events": evs, "shape": "?"}
+    return {"n": int(f[1]), "layout": f[2], "events": evs, "shape": "?", "keep": len(f) > 4 and f[4] == "keep"}
 
 
 class Spec:
@@ -461,9 +482,11 @@ class Spec:
         self._comp = None
 
     def edit(self, e):
-        k, a, b = e
+        k, a, b = e[0], e[1], e[2]
+        if k in IDOPS or k in "PA":
+            return        # identifier operations, re-parsing, taking a new AnalyserModel: the connection graph is unchanged
         self._comp = None
-        if k == "e":
+        if k in "e4":
             if a != b and a not in self.dead and b not in self.dead:
                 self.edges.add(frozenset((a, b)))
         elif k == "d":
@@ -499,15 +522,49 @@ def gen_history(rng, maxn):
     else:
         base = shape_edges(rng, shape, vs[:n if rng.random() < 0.6 else rng.randint(1, n)])
     rng.shuffle(base)
+    # layout first: it decides which edits make sense
+    nedges = len(base) + 10
+    if rng.random() < 0.55 and nedges <= 150:
+        layout = "V:" + ",".join(str(v) for v in range(n))
+    else:
+        nc = rng.randint(1, n)
+        layout = ("J:" if (n <= 12 and nedges <= 25) else "I:") + ",".join(str(rng.randrange(nc)) for _ in range(n))
+    # keep: ONE Analyser for the whole history, analyseModel called again on it after edits.  It needs analyseModel to be
+    # called at all (not layout I) and no destruction (the Analyser holds variables alive through its issues).
+    keep = layout[0] != "I" and rng.random() < 0.4
+    with_ids = rng.random() < 0.6
+    can_reparse = layout[0] == "V" and not keep
     spec = Spec(n)
     events = []
     asked = []
     removed = []
     kinds = {}
+    am = {"cur": -1, "dirty": True, "asked": {}, "n_old": 0}
 
     def do(e):
         events.append(e)
         spec.edit(e)
+        am["dirty"] = True
+
+    def take_am():
+        am["cur"] += 1
+        am["dirty"] = False
+        am["asked"][am["cur"]] = []
+
+    def pick_pair(live):
+        """a pair for an identifier operation: direct, indirect, or anything"""
+        r = rng.random()
+        el = sorted(tuple(sorted(e)) for e in spec.edges)
+        if r < 0.35 and el:
+            a, b = rng.choice(el)
+        else:
+            a, b = rng.choice(live), rng.choice(live)
+            if r < 0.8:
+                comp = spec.comp()
+                same = [v for v in live if comp[v] == comp[a] and v != a and frozenset((a, v)) not in spec.edges]
+                if same:
+                    b = rng.choice(same)           # indirectly equivalent
+        return (a, b) if rng.random() < 0.5 else (b, a)
 
     def ask_round(touched):
         live = [v for v in range(n) if v not in spec.dead]
@@ -527,48 +584,79 @@ def gen_history(rng, maxn):
                 qs.append((rng.choice(pool), rng.choice(live)))
         rng.shuffle(qs)
         for q in qs:
+            if am["dirty"]:
+                take_am()
             events.append(("?", q[0], q[1]))
+            am["asked"][am["cur"]].append(q)
             if q not in asked:
                 asked.append(q)
+        # OLD AnalyserModel objects (keep mode): only pairs that were asked on that object while it was the current one
+        if keep and am["cur"] >= 1 and rng.random() < 0.7:
+            for _ in range(rng.randint(1, 6)):
+                k = rng.randrange(0, am["cur"])
+                if am["asked"][k]:
+                    a, b = rng.choice(am["asked"][k])
+                    events.append(("!", k, a, b))
+                    am["n_old"] += 1
 
     for a, b in base:
-        do(("e", a, b) if rng.random() < 0.5 else ("e", b, a))
+        if rng.random() < 0.5:
+            a, b = b, a
+        do(("4" if (with_ids and rng.random() < 0.6) else "e", a, b))
+    if can_reparse and with_ids and rng.random() < 0.5:
+        do(("P", 0, 0))                                                        # the model now comes from the parser
+        kinds["reparse"] = kinds.get("reparse", 0) + 1
     ask_round(())
     for _ in range(rng.randint(3, 10)):
         live = [v for v in range(n) if v not in spec.dead]
         touched = []
-        for _ in range(1 if rng.random() < 0.75 else rng.randint(2, 3)):
+        for _ in range(1 if rng.random() < 0.7 else rng.randint(2, 3)):
+            live = [v for v in range(n) if v not in spec.dead]
             r = rng.random()
             el = sorted(tuple(sorted(e)) for e in spec.edges)
-            if r < 0.35 and el:
+            a = b = 0
+            if with_ids and r < 0.22 and live:
+                a, b = pick_pair(live)
+                do((rng.choice("mmccMC"), a, b))                               # identifier operation on some pair
+                kind = "id-op"
+            elif r < 0.47 and el:
                 a, b = rng.choice(el)
                 if rng.random() < 0.5:
                     a, b = b, a
                 do(("d", a, b))
                 removed.append((a, b))
                 kind = "remove"
-            elif r < 0.50 and removed:
+            elif r < 0.57 and removed:
                 a, b = rng.choice(removed)                                     # put a removed equivalence back
-                do(("e", b, a) if rng.random() < 0.5 else ("e", a, b))
+                if rng.random() < 0.5:
+                    a, b = b, a
+                if a in spec.dead or b in spec.dead:
+                    continue
+                do(("4" if (with_ids and rng.random() < 0.5) else "e", a, b))
                 kind = "re-add"
-            elif r < 0.65 and len(live) >= 2:
+            elif r < 0.69 and len(live) >= 2:
                 a, b = rng.sample(live, 2)
-                do(("e", a, b))
+                do(("4" if (with_ids and rng.random() < 0.5) else "e", a, b))
                 kind = "add"
-            elif r < 0.78 and live:
-                a = rng.choice(live)
-                b = a
+            elif r < 0.80 and live:
+                a = b = rng.choice(live)
                 do(("r", a, a))
                 kind = "removeAll"
-            elif r < 0.88 and len(live) > 2:
-                a = rng.choice(live)
-                b = a
+            elif r < 0.87 and len(live) > 2 and not keep:
+                a = b = rng.choice(live)
                 do(("x", a, a))
                 kind = "destroy"
-            elif r < 0.94 and len(live) >= 2:
+            elif r < 0.91 and len(live) >= 2:
                 a, b = rng.sample(live, 2)
                 do(("d", a, b))                                                # mostly a non-existing equivalence
                 kind = "remove(any)"
+            elif r < 0.94 and can_reparse:
+                do(("P", 0, 0))
+                kind = "reparse"
+            elif r < 0.97:
+                events.append(("A", 0, 0))                                     # a new AnalyserModel although nothing changed
+                take_am()
+                kind = "re-analyse"
             elif live:
                 a = rng.choice(live)
                 b = rng.choice(live + sorted(spec.dead)) if rng.random() < 0.5 else a
@@ -579,13 +667,8 @@ def gen_history(rng, maxn):
             kinds[kind] = kinds.get(kind, 0) + 1
             touched += [a, b]
         ask_round(tuple(touched))
-    nedges = len(base) + 10
-    if rng.random() < 0.5 and nedges <= 150:
-        layout = "V:" + ",".join(str(v) for v in range(n))
-    else:
-        nc = rng.randint(1, n)
-        layout = ("J:" if (n <= 12 and nedges <= 25) else "I:") + ",".join(str(rng.randrange(nc)) for _ in range(n))
-    return {"n": n, "shape": shape, "layout": layout, "events": events, "edit_kinds": kinds}
+    return {"n": n, "shape": shape, "layout": layout, "events": events, "edit_kinds": kinds, "keep": keep,
+            "old_questions": am["n_old"]}
 
 
 def judge_history(h, c, m):
@@ -597,18 +680,45 @@ def judge_history(h, c, m):
     cf, mf = fields(c), fields(m)
     ans = cf["answers"].split(",") if cf["answers"] else []
     mans = mf["answers"].split(",") if mf["answers"] else []
+    oldans = cf.get("old", "")
     spec = Spec(h["n"])
     problems = []
     first = None
     qi = 0
+    oi = 0
     names = ("hasEquivalentVariable(v,true)", "hasEquivalentVariable(v,false)", "areEquivalentVariables [utilities]",
              "AnalyserModel::areEquivalentVariables", "driver BFS over equivalentVariable(i)")
     last_edit = None
+    snapshots = []       # component labels of the graph when each AnalyserModel was taken
+    dirty = True
     for ei, e in enumerate(h["events"]):
+        if e[0] == "A":
+            snapshots.append(list(spec.comp()))
+            dirty = False
+            continue
+        if e[0] == "!":
+            # an OLD AnalyserModel (documented as a snapshot of the model): the pair was asked on it while it was current.
+            # Accepted: the snapshot's answer (what the cache holds) or the current graph's answer; anything else is wrong.
+            k, a, b = e[1], e[2], e[3]
+            got = oldans[oi:oi + 1]
+            oi += 1
+            if k < len(snapshots):
+                snap = "1" if (a == b or snapshots[k][a] == snapshots[k][b]) else "0"
+                cur = "1" if (a == b or spec.comp()[a] == spec.comp()[b]) else "0"
+                if got not in (snap, cur):
+                    if first is None:
+                        first = ei
+                    problems.append("ORACLE old AnalyserModel #%d answers %s for (v%d,v%d); its snapshot says %s, the current graph %s" % (
+                        k, got, a, b, snap, cur))
+            continue
         if e[0] != "?":
             spec.edit(e)
             last_edit = ev_text(e)
+            dirty = True
             continue
+        if dirty:
+            snapshots.append(list(spec.comp()))
+            dirty = False
         if qi >= len(ans):
             break
         a, b = e[1], e[2]
@@ -653,6 +763,15 @@ def shrink_history(drv, mdl, workdir, h, first, budget=150):
         c, m = run_one(drv, mdl, workdir, hist_line(x), "shrink")
         return bool(judge_history(x, c, m)[0])
     cur = dict(h)
+    # questions to old AnalyserModel objects name them by index, which shifts when events are dropped: try without them first
+    if any(e[0] == "!" for e in cur["events"]):
+        x = dict(cur, events=[e for e in cur["events"] if e[0] != "!"])
+        budget -= 1
+        if fails(x):
+            cur = x
+            first = None
+        else:
+            return cur        # the failure is about an old object: keep the history as it is
     if first is not None and first + 1 < len(cur["events"]):
         x = dict(cur, events=cur["events"][:first + 1])
         budget -= 1
@@ -851,7 +970,12 @@ def run(ctx):
                 hhist["edit_kinds"][kk] = hhist["edit_kinds"].get(kk, 0) + v
             ans = fields(c)["answers"].split(",") if not c.startswith(BAD_TOKENS) else []
             seen, qi, edits_since = {}, 0, 0
+            if h.get("keep"):
+                hhist["keep_one_analyser"] = hhist.get("keep_one_analyser", 0) + 1
+            hhist["old_analysermodel_questions"] = hhist.get("old_analysermodel_questions", 0) + sum(1 for e in h["events"] if e[0] == "!")
             for e in h["events"]:
+                if e[0] == "!":
+                    continue
                 if e[0] != "?":
                     hhist["edits"] += 1
                     edits_since += 1
@@ -864,7 +988,7 @@ def run(ctx):
                         hhist["answers_that_changed_when_asked_again"] += 1
                 seen[q] = (ans[qi] if qi < len(ans) else None, edits_since)
                 qi += 1
-            if any(e[0] in "drx" for e in h["events"]) and qi >= 2:
+            if any(e[0] in "drxmcMCP" for e in h["events"]) and qi >= 2:
                 hnontrivial.add(hashlib.sha1(line.encode()).hexdigest())
             if problems:
                 hfailing.append((hi, c, m, problems, first))
@@ -890,7 +1014,10 @@ def run(ctx):
                        "variables (also v,v) queried through the three functions in a shuffled order with ~1/3 repetitions; non-trivial = "
                        "at least one equivalence survives and at least two queries; distinct by the text of the case (measured: %d). "
                        "histories: a case is a sequence of edits (addEquivalence, removeEquivalence, removeAllEquivalences, destruction of a "
-                       "variable, re-adding a removed equivalence, no-op/odd calls) interleaved with questions; after EVERY edit earlier pairs are "
+                       "variable, re-adding a removed equivalence, 4-argument addEquivalence with identifiers, set/remove mapping and connection identifiers "
+                       "on direct / indirect / unrelated pairs, print+re-parse of the model, no-op/odd calls) interleaved with questions; 40 %% of the "
+                       "histories keep ONE Analyser and call analyseModel on it again after edits (the others take a fresh Analyser), some also ask "
+                       "OLD AnalyserModel objects pairs they were asked before; after EVERY edit earlier pairs are "
                        "asked again (plus pairs around the edit and pairs remote from it) through hasEquivalentVariable(v,true/false), the "
                        "utility areEquivalentVariables and AnalyserModel::areEquivalentVariables on an AnalyserModel taken after the edit; "
                        "non-trivial = at least one removing edit and two questions; distinct by text (measured: %d). "
